@@ -235,6 +235,13 @@ func (s *Ref) judgeAdd(o *Op) verdict {
 	if o.Name != "" && o.Group != "" {
 		return verdict{why: "name+group", form: r.form}
 	}
+	for i, ot := range outs {
+		if ot.Key != "" && ot.Group != "" {
+			// a result-object field tagged with both name and group: one registration cannot
+			// have both (godi says so for Name+Group and for descriptors in general)
+			return verdict{why: "name+group", form: r.form, rejectAt: i + 1}
+		}
+	}
 	// identities the call provides, in the order the outputs are declared
 	if single {
 		if len(o.As) > 0 {
